@@ -412,7 +412,7 @@ func (t *translator) funcBody(stmts []ast.Stmt, en env, res gotype) (string, err
 		}
 		return e.lean, nil
 	case *ast.IfStmt:
-		if s.Init != nil || s.Else != nil {
+		if s.Init != nil {
 			return "", fmt.Errorf("unsupported if form")
 		}
 		c, err := t.expr(s.Cond, en)
@@ -426,7 +426,16 @@ func (t *translator) funcBody(stmts []ast.Stmt, en env, res gotype) (string, err
 		if err != nil {
 			return "", err
 		}
-		el, err := t.funcBody(stmts[1:], en, res)
+		// `if c { return a } else { return b }` (both branches return) or `if c { return a }; rest`
+		rest := stmts[1:]
+		if s.Else != nil {
+			eb, ok := s.Else.(*ast.BlockStmt)
+			if !ok || len(rest) != 0 {
+				return "", fmt.Errorf("unsupported if form")
+			}
+			rest = eb.List
+		}
+		el, err := t.funcBody(rest, en, res)
 		if err != nil {
 			return "", err
 		}
